@@ -105,3 +105,83 @@ Proof.
   split; [exact ex_shake256_65_length|]. split; [right; left; reflexivity|].
   vm_compute. repeat split; reflexivity.
 Qed.
+
+(* ---- the FIPS 204 transcription on a toy XOF with the XOF laws ---- *)
+From Tink Require Import MldsaFips MldsaFipsSampling MldsaFipsTop.
+
+(* a lawful toy XOF: the output for message m is the first n bytes of the
+   stream  base(m) ++ 0 0 0 ...  (so a shorter request is a prefix of a longer
+   one), with base = 64 ones for the 96-byte message K || rnd || mu (so that
+   rho'' differs from ExpandS's all-zero seed), the packed mask y = 0 for the
+   66-byte ExpandMask messages rho'' || IntegerToBytes(kappa + r, 2), and
+   nothing otherwise *)
+Definition lx_base (m : bytes) : bytes :=
+  if Nat.eqb (length m) 96 then repeat 1%N 64
+  else if Nat.eqb (length m) 66 && N.eqb (nth 0 m 0%N) 1 then ex_mask
+  else [].
+Definition lx_shake256 (m : bytes) (n : nat) : bytes := firstn n (lx_base m ++ zeros n).
+
+Lemma firstn_pad_prefix (base : bytes) a b : firstn a (firstn (a + b) (base ++ zeros (a + b))) = firstn a (base ++ zeros a).
+Proof.
+  rewrite firstn_firstn. replace (Nat.min a (a + b)) with a by lia.
+  unfold zeros. rewrite repeat_app, app_assoc, firstn_app.
+  rewrite app_length, repeat_length. replace (a - (length base + a))%nat with 0%nat by lia.
+  rewrite firstn_O, app_nil_r. reflexivity.
+Qed.
+
+Lemma lx_shake256_laws : xof_laws lx_shake256.
+Proof.
+  split; intros; unfold lx_shake256.
+  - rewrite firstn_length, app_length, zeros_length. lia.
+  - apply wfb_firstn. apply wfb_app. split; [|apply zeros_wf].
+    unfold lx_base. destruct (Nat.eqb (length m) 96); [apply Forall_forall; intros x Hx; apply repeat_spec in Hx; subst; reflexivity|].
+    destruct (_ && _); [|constructor]. unfold ex_mask. apply simpleBitPack_wf. unfold psubFrom. rewrite map_length. reflexivity.
+  - apply firstn_pad_prefix.
+Qed.
+
+Lemma ex_shake128_laws : xof_laws ex_shake128.
+Proof.
+  split; intros; unfold ex_shake128; [apply zeros_length | apply zeros_wf |].
+  unfold zeros. rewrite repeat_app, firstn_app, repeat_length, Nat.sub_diag, firstn_O, app_nil_r.
+  rewrite <- (repeat_length 0%N a) at 1. apply firstn_all.
+Qed.
+
+Definition lx_kp := Eval vm_compute in keyGenInternal ex_shake128 lx_shake256 MLDSA44 [].
+Definition lx_pk : publicKey := match lx_kp with Some (pk, _) => pk | None => mkPK [] [] [] end.
+Definition lx_sk : secretKey := match lx_kp with Some (_, sk) => sk | None => mkSK [] [] [] [] [] [] end.
+Definition lx_pkb : bytes := Eval vm_compute in pkEncode lx_pk.
+Definition lx_skb : bytes := Eval vm_compute in skEncode MLDSA44 lx_sk.
+Definition lx_sig : bytes := Eval vm_compute in
+  match sign ex_shake128 lx_shake256 MLDSA44 1 lx_sk [] [] [] with Some (Some s) => s | _ => [] end.
+
+Lemma ex_fips_inhabited :
+  xof_laws lx_shake256 /\ xof_laws ex_shake128 /\
+  FIPS.KeyGen_internal lx_shake256 ex_shake128 FIPS.ML_DSA_44 672 1536 [] = Some (lx_pkb, lx_skb) /\
+  length lx_pkb = 1312%nat /\ length lx_skb = 2560%nat /\
+  FIPS.Sign lx_shake256 ex_shake128 FIPS.ML_DSA_44 672 1024 1 lx_skb [] [] [] = Some (Some lx_sig) /\
+  length lx_sig = 2420%nat /\
+  FIPS.Verify lx_shake256 ex_shake128 FIPS.ML_DSA_44 672 1024 lx_pkb [] lx_sig [] = Some true /\
+  FIPS.Verify lx_shake256 ex_shake128 FIPS.ML_DSA_44 672 1024 lx_pkb [] (1%N :: tl lx_sig) [] = Some false.
+Proof.
+  assert (HP : params_ok MLDSA44) by (left; reflexivity).
+  split; [exact lx_shake256_laws|]. split; [exact ex_shake128_laws|].
+  split.
+  { change FIPS.ML_DSA_44 with (fips_of MLDSA44).
+    rewrite <- (KeyGen_internal_eq lx_shake256 ex_shake128 lx_shake256_laws ex_shake128_laws MLDSA44 HP []).
+    vm_compute. reflexivity. }
+  split; [reflexivity|]. split; [reflexivity|].
+  assert (Dsk : skDecode MLDSA44 lx_skb = Some lx_sk) by (vm_compute; reflexivity).
+  assert (Dpk : pkDecode lx_shake256 MLDSA44 lx_pkb = Some lx_pk) by (vm_compute; reflexivity).
+  split.
+  { change FIPS.ML_DSA_44 with (fips_of MLDSA44).
+    rewrite <- (Sign_eq lx_shake256 ex_shake128 lx_shake256_laws ex_shake128_laws MLDSA44 HP lx_skb lx_sk 1 [] [] [] Dsk).
+    vm_compute. reflexivity. }
+  split; [reflexivity|].
+  split.
+  { change FIPS.ML_DSA_44 with (fips_of MLDSA44).
+    rewrite <- (Verify_eq lx_shake256 ex_shake128 lx_shake256_laws ex_shake128_laws MLDSA44 HP lx_pkb lx_pk [] lx_sig [] Dpk eq_refl).
+    vm_compute. reflexivity. }
+  change FIPS.ML_DSA_44 with (fips_of MLDSA44).
+  rewrite <- (Verify_eq lx_shake256 ex_shake128 lx_shake256_laws ex_shake128_laws MLDSA44 HP lx_pkb lx_pk [] (1%N :: tl lx_sig) [] Dpk eq_refl).
+  vm_compute. reflexivity.
+Qed.
